@@ -134,7 +134,7 @@ PROPS = {
     },
     'C10': {
         'proofs': ['Ww.Proofs.C10', 'Ww.Proofs.GenTie.C07'],
-        'gen_sections': MANAGER_SECTIONS,
+        'gen_sections': ['Consts'] + MANAGER_SECTIONS,
         'drivers': [{'name': 'sched'}, {'name': 'hist'}],
         'reasons': ['C10.'],
         'class_fields': _merge(HIST_CLASS, {'sched': ['store', 'procs', 'crash', 'trace', 'statuses', 'exists']}),
